@@ -56,7 +56,7 @@ abbrev Edge := Nat × Nat
 
 /-- Association-list model of `std::unordered_map<Edge, L>`: at most one entry per key
 (maintained by `insert`), iteration order never observed. -/
-def AMap (L : Type) := List (Edge × L)
+abbrev AMap (L : Type) := List (Edge × L)
 
 namespace AMap
 variable {L : Type}
